@@ -132,7 +132,47 @@ fn gen_flood_case(seed: u64, idx: u64) -> Case {
     Case { K, T: rng.range(1, 3) as usize, threshold: *rng.pick(&[0u32, 250, u32::MAX]), data_seed: rng.next(), arrivals, batch_first }
 }
 
+pub const SWEEP_BASE: u64 = 1 << 40;
+
+/// Table-2 sweep: case j = 2 * row (+1): K = K' of that row, or K' - 1 (one padding symbol; the previous
+/// K' + 1 when j is odd and the row index is a multiple of 3): two or three source symbols lost, repair
+/// symbols up to exactly K, then extras one by one. Sparse thresholds only above 1000 symbols.
+fn gen_sweep_case(seed: u64, j: u64) -> Case {
+    let mut rng = Rng::derive(seed, 0x0222, j);
+    let row = (j / 2) as usize % TABLE2.len();
+    let kp = TABLE2[row].0 as usize;
+    let K = if j % 2 == 0 {
+        kp
+    } else if row % 3 == 0 && row > 0 {
+        TABLE2[row - 1].0 as usize + 1
+    } else {
+        kp - 1
+    };
+    let lost = rng.range(1, 3.min(K as u64)) as usize;
+    let mut src: Vec<u32> = (0..K as u32).collect();
+    rng.shuffle(&mut src);
+    let mut arrivals: Vec<u32> = src[..K - lost].to_vec();
+    let mut used: HashSet<u32> = arrivals.iter().copied().collect();
+    while arrivals.len() < K {
+        let e = rand_repair(&mut rng, K, &used);
+        used.insert(e);
+        arrivals.push(e);
+    }
+    rng.shuffle(&mut arrivals);
+    for _ in 0..4 {
+        let e = rand_repair(&mut rng, K, &used);
+        used.insert(e);
+        arrivals.push(e);
+    }
+    let threshold = if K > 1000 { *rng.pick(&[0u32, 250]) } else { *rng.pick(&[0u32, 250, u32::MAX]) };
+    // deliver the first K - 1 symbols in one call: nothing to decide below K
+    Case { K, T: rng.range(1, 3) as usize, threshold, data_seed: rng.next(), arrivals, batch_first: K - 1 }
+}
+
 pub fn gen_case(seed: u64, idx: u64, kmax: usize) -> Case {
+    if idx >= SWEEP_BASE {
+        return gen_sweep_case(seed, idx - SWEEP_BASE);
+    }
     if idx % 40 == 39 {
         return gen_flood_case(seed, idx);
     }
@@ -220,7 +260,7 @@ pub fn run_case(ctx: &Ctx, gf: &Gf, c: &Case, replay: J, st: &Stats) {
         format!("K={K} T={} thr={} batch={} arr={:016x}", c.T, c.threshold, c.batch_first, h.get())
     };
     while i < c.arrivals.len() {
-        let n = if i == 0 { c.batch_first.max(1) } else { 1 };
+        let n = if i == 0 { c.batch_first.max(1).min(c.arrivals.len()) } else { 1 };
         let chunk: Vec<u32> = c.arrivals[i..(i + n).min(c.arrivals.len())].to_vec();
         i += chunk.len();
         for &e in &chunk {
@@ -341,6 +381,26 @@ pub fn run(ctx: &Ctx) -> i32 {
         run_case(ctx, &gf, &c, rj, &st);
         ctx.eval(1);
     });
+    // every Table-2 row up to sweep_kmax (cost of the rank oracle grows with L^3 / 64), and every 5th
+    // larger row up to sweep_kmax2, rotating with the seed
+    let sweep_kmax = ctx.args.ex_u64("sweep_kmax", ctx.args.pick(2200, 4500)) as usize;
+    let sweep_kmax2 = ctx.args.ex_u64("sweep_kmax2", ctx.args.pick(4500, 9000)) as usize;
+    let sweep_done = AtomicU64::new(0);
+    if ctx.args.ex("n").is_none() {
+        par_for(2 * TABLE2.len(), |j| {
+            let kp = TABLE2[j / 2].0 as usize;
+            if ctx.too_many_violations() || kp > sweep_kmax2 || (kp > sweep_kmax && (j as u64 / 2 + ctx.seed()) % 5 != 0) {
+                return;
+            }
+            let idx = SWEEP_BASE + j as u64;
+            let c = gen_case(ctx.seed(), idx, kmax);
+            let rj = case_json(ctx.seed(), idx, kmax, &c);
+            run_case(ctx, &gf, &c, rj, &st);
+            sweep_done.fetch_add(1, Relaxed);
+            ctx.eval(1);
+        });
+    }
+    ctx.cov("table2_sweep_cases_(K=K'_and_K=K'-1_or_prevK'+1)", J::i(sweep_done.load(Relaxed)));
     let ev = raptorq::verif::events::read();
     ctx.cov("prefix_decisions_compared_with_rank_oracle", J::i(st.decisions.load(Relaxed)));
     ctx.cov("prefixes_below_K_asserted_None", J::i(st.below_k.load(Relaxed)));
@@ -354,7 +414,7 @@ pub fn run(ctx: &Ctx) -> i32 {
     ctx.floor("undecodable_prefixes_holding_at_least_L_symbols_(flood_of_dependent_symbols)", st.flood_undecodable.load(Relaxed), if q { 50 } else { 0 });
     ctx.floor("prefix_decisions", st.decisions.load(Relaxed), if q { 10000 } else { 10 });
     ctx.finish(
-        "arrival sequences of distinct encoder-produced symbols aimed at the decision boundary: 0..K-1 surviving source symbols + repair ESIs (small, uniform over [K,2^24), top of range) up to exactly K symbols, then extras one by one; one third of the cases start with one batch of K+H..K+H+3 symbols (reaches the GF(2)-only attempt; sets whose binary rows are rank deficient while the full matrix has rank L are counted as fallback cases); one case in 40 floods the decoder with L..L+11 repair symbols taken from at most 6 classes of ESIs with identical LT rows (rank far below L however many arrive) before the symbols that complete the rank; K in 1..60, every Table-2 K' and K'+-1 up to kmax, uniform up to kmax; T 1..4; sparse threshold {0,250,inf}. After EVERY call: Some iff (all source present or rank over GF(256) of [LDPC; HDPC; LT rows of received+padding ISIs] = L) computed by the independent reference model; Some implies the right bytes. non-trivial = prefix with >= K distinct symbols and not all-source; distinct by (K, ESI set)",
+        "arrival sequences of distinct encoder-produced symbols aimed at the decision boundary: 0..K-1 surviving source symbols + repair ESIs (small, uniform over [K,2^24), top of range) up to exactly K symbols, then extras one by one; one third of the cases start with one batch of K+H..K+H+3 symbols (reaches the GF(2)-only attempt; sets whose binary rows are rank deficient while the full matrix has rank L are counted as fallback cases); one case in 40 floods the decoder with L..L+11 repair symbols taken from at most 6 classes of ESIs with identical LT rows (rank far below L however many arrive) before the symbols that complete the rank; K in 1..60, random Table-2 K' and K'+-1 up to kmax, uniform up to kmax, plus one sweep over every Table-2 row up to sweep_kmax (every 5th row above, up to sweep_kmax2) with K = K' and K = K'-1 / previous K'+1 and 1-3 lost source symbols; T 1..4; sparse threshold {0,250,inf}. After EVERY call: Some iff (all source present or rank over GF(256) of [LDPC; HDPC; LT rows of received+padding ISIs] = L) computed by the independent reference model; Some implies the right bytes. non-trivial = prefix with >= K distinct symbols and not all-source; distinct by (K, ESI set)",
         &["rank oracle = harness's independent model of RFC 6330 5.3.3.3 / 5.3.5 (golden tables; GF(2) elimination on bitsets then GF(256) elimination of the HDPC residual)", "symbol payloads are those of the crate's encoder (whose RFC conformance is C04's business)"],
         vec![],
     )
